@@ -211,7 +211,7 @@ async def probe_iter():
         cases = {
             "accumulate": lambda: ait.accumulate(data),
             "batched": lambda: ait.batched(data, 2),
-            "Chain": lambda: ait.Chain(data, data),
+            "chain": lambda: ait.chain(data, data),
             "combinations": lambda: ait.combinations(data, 2),
             "combinations_with_replacement": lambda: ait.combinations_with_replacement(data, 2),
             "compress": lambda: ait.compress(data, [1, 0, 1]),
@@ -235,6 +235,51 @@ async def probe_iter():
                 continue
             if not y:
                 raise Fail(f"itertools.{name} over a synchronous iterable of length {length}: a full traversal passed no checkpoint")
+        # "or one that yields nothing": an ASYNCHRONOUS source that never suspends by itself, arguments chosen so that the
+        # traversal yields nothing although the source has `length` elements
+        async def agen():
+            for x in data:
+                yield x
+
+        async def never(x):
+            return False
+
+        async def always(x):
+            return True
+
+        nothing = {
+            "accumulate": (lambda: ait.accumulate(agen())) if length == 0 else None,
+            "batched": (lambda: ait.batched(agen(), 2)) if length == 0 else None,
+            "chain": (lambda: ait.chain(agen(), agen())) if length == 0 else None,
+            "combinations": lambda: ait.combinations(agen(), length + 1),
+            "combinations_with_replacement": (lambda: ait.combinations_with_replacement(agen(), 1)) if length == 0 else None,
+            "compress": lambda: ait.compress(agen(), [0] * length),
+            "cycle": (lambda: ait.cycle(agen())) if length == 0 else None,
+            "dropwhile": lambda: ait.dropwhile(always, agen()),
+            "filterfalse": lambda: ait.filterfalse(always, agen()),
+            "groupby": (lambda: ait.groupby(agen())) if length == 0 else None,
+            "islice-start-beyond": lambda: ait.islice(agen(), length + 2, None),
+            "islice-start-at-end": lambda: ait.islice(agen(), length, None),
+            "islice-stop-0": lambda: ait.islice(agen(), 0),
+            "islice-empty-window": lambda: ait.islice(agen(), 2, 1),
+            "islice-step": lambda: ait.islice(agen(), length + 1, length + 7, 2),
+            "pairwise": (lambda: ait.pairwise(agen())) if length <= 1 else None,
+            "permutations": lambda: ait.permutations(agen(), length + 1),
+            "product": lambda: ait.product(agen(), []),
+            "repeat": lambda: ait.repeat(1, 0),
+            "starmap": (lambda: ait.starmap(add, agen())) if length == 0 else None,
+            "takewhile": lambda: ait.takewhile(never, agen()),
+            "zip_longest": (lambda: ait.zip_longest(agen(), agen())) if length == 0 else None,
+        }
+        for name, mk in nothing.items():
+            if mk is None:
+                continue
+            n += 1
+            y, out = await yielded_during(lambda mk=mk: drain(mk()))
+            if out:
+                continue  # (the arguments did not make it empty: not this clause)
+            if not y:
+                raise Fail(f"itertools.{name} over a non-suspending asynchronous iterable of length {length}, yielding nothing: the traversal passed no checkpoint")
         for init in (None, 10):
             n += 1
             try:
@@ -255,7 +300,7 @@ def main(argv):
     try:
         if "--bounded-iter" in argv:
             n = asyncio.run(probe_iter())
-            print(f"bounded-iter: {n} (function, length) cases over synchronous iterables of length 0..3, all passed a checkpoint")
+            print(f"bounded-iter: {n} (function, length) cases over synchronous iterables of length 0..3 and over non-suspending asynchronous iterables that make the traversal yield nothing, all passed a checkpoint")
             print(f"reproduced=False cases_tried={n}")
             return 0
         asyncio.run(probe_table())
